@@ -37,6 +37,15 @@ pub enum DiskFault {
     /// a compressed G1 point replaced (identity / flag games)
     G1Identity { off: usize },
     G1FlagBits { off: usize, bits: u8 },
+    /// a compressed G1 slot overwritten with the encoding of a point that is on the curve but
+    /// outside the prime-order subgroup
+    G1NotInSubgroup { off: usize, bytes: [u8; 48] },
+    /// compressed G2 slots of an opening key: identity, flag games, a point outside the subgroup,
+    /// the other G2 element of the key
+    G2Identity { off: usize },
+    G2FlagBits { off: usize, bits: u8 },
+    G2NotInSubgroup { off: usize, bytes: Vec<u8> },
+    G2CopyOf { off: usize, from: usize },
     /// the object written twice back to back
     Duplicate,
     /// every byte replaced by seeded garbage of the same length
@@ -66,6 +75,11 @@ impl DiskFault {
             DiskFault::ScalarNonCanonical { .. } => "disk.scalar_noncanonical",
             DiskFault::G1Identity { .. } => "disk.g1_identity",
             DiskFault::G1FlagBits { .. } => "disk.g1_flag_bits",
+            DiskFault::G1NotInSubgroup { .. } => "disk.g1_on_curve_outside_subgroup",
+            DiskFault::G2Identity { .. } => "disk.g2_identity",
+            DiskFault::G2FlagBits { .. } => "disk.g2_flag_bits",
+            DiskFault::G2NotInSubgroup { .. } => "disk.g2_on_curve_outside_subgroup",
+            DiskFault::G2CopyOf { .. } => "disk.g2_copy_of_other_element",
             DiskFault::Duplicate => "disk.duplicate",
             DiskFault::Garbage(_) => "disk.garbage",
             DiskFault::Empty => "disk.empty",
@@ -214,6 +228,35 @@ pub fn apply(stored: &[u8], fault: &DiskFault, old: Option<&[u8]>, other: Option
                 b[*off] ^= bits << 5;
             }
         }
+        DiskFault::G1NotInSubgroup { off, bytes } => {
+            if off + 48 <= n {
+                b[*off..off + 48].copy_from_slice(bytes);
+            }
+        }
+        DiskFault::G2Identity { off } => {
+            if off + 96 <= n {
+                for x in b[*off..off + 96].iter_mut() {
+                    *x = 0;
+                }
+                b[*off] = 0xc0;
+            }
+        }
+        DiskFault::G2FlagBits { off, bits } => {
+            if off + 96 <= n {
+                b[*off] ^= bits << 5;
+            }
+        }
+        DiskFault::G2NotInSubgroup { off, bytes } => {
+            if off + 96 <= n && bytes.len() == 96 {
+                b[*off..off + 96].copy_from_slice(bytes);
+            }
+        }
+        DiskFault::G2CopyOf { off, from } => {
+            if off + 96 <= n && from + 96 <= n {
+                let src = b[*from..from + 96].to_vec();
+                b[*off..off + 96].copy_from_slice(&src);
+            }
+        }
         DiskFault::Duplicate => {
             let c = b.clone();
             b.extend_from_slice(&c);
@@ -225,6 +268,39 @@ pub fn apply(stored: &[u8], fault: &DiskFault, old: Option<&[u8]>, other: Option
         DiskFault::Empty => b.clear(),
     }
     b
+}
+
+/// Compressed encoding of a point on the curve that is not in the prime-order subgroup.
+pub fn g1_outside_subgroup(rng: &mut Rng) -> Option<[u8; 48]> {
+    use dusk_bls12_381::G1Affine;
+    for _ in 0..64 {
+        let mut b = [0u8; 48];
+        rng.fill(&mut b);
+        b[0] = (b[0] & 0x1f) | 0x80 | ((rng.below(2) as u8) << 5);
+        if let Some(p) = Option::<G1Affine>::from(G1Affine::from_compressed_unchecked(&b)) {
+            if !bool::from(p.is_torsion_free()) && bool::from(p.is_on_curve()) {
+                return Some(b);
+            }
+        }
+    }
+    None
+}
+
+pub fn g2_outside_subgroup(rng: &mut Rng) -> Option<Vec<u8>> {
+    use dusk_bls12_381::G2Affine;
+    for _ in 0..64 {
+        let mut b = [0u8; 96];
+        rng.fill(&mut b);
+        b[0] = (b[0] & 0x1f) | 0x80 | ((rng.below(2) as u8) << 5);
+        // both Fp components must be reduced: clear the top bits of the second one as well
+        b[48] &= 0x1f;
+        if let Some(p) = Option::<G2Affine>::from(G2Affine::from_compressed_unchecked(&b)) {
+            if !bool::from(p.is_torsion_free()) && bool::from(p.is_on_curve()) {
+                return Some(b.to_vec());
+            }
+        }
+    }
+    None
 }
 
 pub fn special_values(v: u64, rng: &mut Rng) -> u64 {
@@ -268,8 +344,27 @@ pub fn random_fault(rng: &mut Rng, len: usize, lay: Option<&Layout>) -> DiskFaul
             };
         }
         if pick < 7 && !lay.g1_points.is_empty() {
+            if !lay.g2_points.is_empty() && rng.chance(1, 3) {
+                let off = lay.g2_points[rng.usize(lay.g2_points.len())];
+                return match rng.below(4) {
+                    0 => DiskFault::G2Identity { off },
+                    1 => DiskFault::G2FlagBits { off, bits: 1 + rng.below(7) as u8 },
+                    2 => DiskFault::G2CopyOf { off, from: lay.g2_points[rng.usize(lay.g2_points.len())] },
+                    _ => match g2_outside_subgroup(rng) {
+                        Some(bytes) => DiskFault::G2NotInSubgroup { off, bytes },
+                        None => DiskFault::G2Identity { off },
+                    },
+                };
+            }
             let off = lay.g1_points[rng.usize(lay.g1_points.len())];
-            return if rng.chance(1, 2) { DiskFault::G1Identity { off } } else { DiskFault::G1FlagBits { off, bits: 1 + rng.below(7) as u8 } };
+            return match rng.below(3) {
+                0 => DiskFault::G1Identity { off },
+                1 => DiskFault::G1FlagBits { off, bits: 1 + rng.below(7) as u8 },
+                _ => match g1_outside_subgroup(rng) {
+                    Some(bytes) => DiskFault::G1NotInSubgroup { off, bytes },
+                    None => DiskFault::G1Identity { off },
+                },
+            };
         }
         if !lay.scalar_regions.is_empty() {
             let (off, cnt) = lay.scalar_regions[rng.usize(lay.scalar_regions.len())];
